@@ -35,6 +35,16 @@ func init() {
 
 func c06compressed(c *mon.Ctx, b []byte, cls string, rng *rand.Rand) {
 	snap := append([]byte(nil), b...)
+	// history: sometimes the same bytes are first decoded through the TRUSTED entry points; the untrusted decision
+	// must not depend on it
+	if rng.Intn(3) == 0 {
+		var t banderwagon.Element
+		mon.Try(func() { t.SetBytesUnsafe(b) })
+		if len(b) == 32 && rng.Intn(2) == 0 {
+			mon.Try(func() { t.SetBytesUncompressed(append(append([]byte(nil), b...), b...), true) })
+		}
+		c.Count("trusted_decode_before_untrusted", 1)
+	}
 	want, werr := ref.Deserialize(b)
 	verdict := "accept"
 	if werr != nil {
@@ -272,6 +282,19 @@ func runC06(c *mon.Ctx) {
 				}
 				if b == 0 && j == 1 {
 					c.Sample(map[string]interface{}{"valid_encoding": hx(enc[:]), "alias_x_plus_p": hx(be32(new(big.Int).Add(x, ref.P))), "uncompressed": hx(cat(a.X, yL))})
+				}
+			}
+			// x whose y^2 has a structured discrete logarithm in the 2^32 subgroup (low blocks zero, single blocks set ...)
+			for j := 0; j < 10; j++ {
+				D := uint32(rng.Intn(256)) << (8 * uint(rng.Intn(4)))
+				if j%3 == 0 {
+					D = (rng.Uint32() >> 16) << 16
+				}
+				if x := c17xFromY2(c17target(D&^1, rng)); x != nil {
+					c06compressed(c, be32(x), "y2-dlog-structured", rng)
+					if yL, _, ok := ref.YFromX(x); ok {
+						c06uncompressed(c, append(be32(x), be32(yL)...), "u:y2-dlog-structured,ylarge", rng)
+					}
 				}
 			}
 			// x whose Montgomery representation is a small integer, and limb-structured x (the oracle decides what they are)
